@@ -2,6 +2,7 @@ package sim
 
 import (
 	"fmt"
+	"strings"
 	"sync"
 	"sync/atomic"
 	"time"
@@ -34,7 +35,14 @@ func (l *Logger) Lines() []string {
 func (l *Logger) add(level, scope, s string) {
 	n := l.Calls.Add(1)
 	if n > 5_000_000 {
-		panic("sim.Logger: more than 5e6 log calls in one case (busy loop?)")
+		l.mu.Lock()
+		tail := l.lines
+		if len(tail) > 12 {
+			tail = tail[len(tail)-12:]
+		}
+		msg := "sim.Logger: more than 5e6 log calls in one case (busy loop?); last lines:\n  " + strings.Join(tail, "\n  ")
+		l.mu.Unlock()
+		panic(msg)
 	}
 	if l.Keep <= 0 {
 		return
